@@ -3,6 +3,8 @@ package main
 // Verification-condition generation from go/ssa.
 
 import (
+	"regexp"
+	"strconv"
 	"fmt"
 	"go/constant"
 	"go/token"
@@ -29,6 +31,7 @@ type Obligation struct {
 	Pos    string
 	CexExtra string // extra constraint used only when searching a counterexample
 	QueryInst string // the query with the context's integer quantifiers instantiated at the function's index terms
+	InLoops   []int  // ordinals of the loops this obligation belongs to (enclosing loops, and the loop it is about)
 }
 
 type witness struct{ Name, Term, Sort string }
@@ -61,6 +64,7 @@ type Gen struct {
 	u        *Universe
 	fn       *ssa.Function
 	topFn    *ssa.Function // the function under contract (fn changes while a callee is inlined)
+	lineTag  string        // appended as a comment to assumption lines (see assume)
 	key      string
 	con      *Contract
 	decls    []string
@@ -139,6 +143,12 @@ func (g *Gen) define(name, sort, term string) {
 
 func (g *Gen) assume(t string) {
 	if t == "" || t == "true" {
+		return
+	}
+	if g.lineTag != "" {
+		// the fact belongs to one loop (its invariant at the head, at entry or after an iteration): obligations of
+		// other loops may be tried without it
+		g.lines = append(g.lines, "(assert "+t+") ; "+g.lineTag)
 		return
 	}
 	g.lines = append(g.lines, "(assert "+t+")")
@@ -620,12 +630,30 @@ func (g *Gen) oblige(name, kind string, tags []string, guard, formula, desc stri
 		}
 	}
 	g.obls = append(g.obls, o)
+	own := -1
+	if m := loopOblRe.FindStringSubmatch(name); m != nil && len(g.inlining) == 0 {
+		own, _ = strconv.Atoi(m[1])
+		o.InLoops = append(o.InLoops, own)
+	}
+	if len(g.inlining) == 0 && g.curBlock != nil {
+		for _, li := range g.inLoop[g.curBlock] {
+			if li.ord != own {
+				o.InLoops = append(o.InLoops, li.ord)
+			}
+		}
+	}
 	// assert-then-assume, but only for obligations that the current property check
 	// reports: a failing obligation of another property must not mask a failure here.
 	if relevant(o, g.con, g.onlyProp) {
+		if own >= 0 && (kind == "inv-entry" || kind == "inv-preserved") {
+			g.lineTag = fmt.Sprintf("@loop:%d", own)
+		}
 		g.guardAssume(guard, formula)
+		g.lineTag = ""
 	}
 }
+
+var loopOblRe = regexp.MustCompile(`/loop(\d+)-`)
 
 // probe emits a vacuity probe: the context plus guard must be satisfiable.
 func (g *Gen) probe(name, guard, desc string) {
